@@ -355,8 +355,11 @@ Definition iter_opt (rs : list (option drange)) : option drange :=
   end.
 
 (* DegreeEnvironment *)
-Record denv := { de_deg : list (vname * drange); de_types : list (vname * vtype); de_assigned : list vname }.
-Definition denv0 : denv := {| de_deg := []; de_types := []; de_assigned := [] |}.
+(* what is known about the branch condition that decides along which edge the block
+   being visited is entered (MergeControl): unknown, constant, possibly input-dependent *)
+Inductive mctl := MUnknown | MConst | MNonConst.
+Record denv := { de_deg : list (vname * drange); de_types : list (vname * vtype); de_assigned : list vname; de_ctl : mctl }.
+Definition denv0 : denv := {| de_deg := []; de_types := []; de_assigned := []; de_ctl := MUnknown |}.
 
 Fixpoint assoc_get {A} (l : list (vname * A)) (v : vname) : option A :=
   match l with
@@ -372,12 +375,23 @@ Fixpoint assoc_set {A} (l : list (vname * A)) (v : vname) (x : A) : list (vname 
 Definition denv_degree (env : denv) (v : vname) : option drange := assoc_get (de_deg env) v.
 (* HashMap::insert overwrites; true iff there was no previous entry *)
 Definition denv_set_degree (env : denv) (v : vname) (r : drange) : denv * bool :=
-  ({| de_deg := assoc_set (de_deg env) v r; de_types := de_types env; de_assigned := de_assigned env |},
+  ({| de_deg := assoc_set (de_deg env) v r; de_types := de_types env; de_assigned := de_assigned env; de_ctl := de_ctl env |},
    match assoc_get (de_deg env) v with None => true | Some _ => false end).
 Definition denv_set_type (env : denv) (v : vname) (t : vtype) : denv :=
-  {| de_deg := de_deg env; de_types := assoc_set (de_types env) v t; de_assigned := de_assigned env |}.
+  {| de_deg := de_deg env; de_types := assoc_set (de_types env) v t; de_assigned := de_assigned env; de_ctl := de_ctl env |}.
 Definition denv_set_assigned (env : denv) (v : vname) : denv :=
-  {| de_deg := de_deg env; de_types := de_types env; de_assigned := v :: de_assigned env |}.
+  {| de_deg := de_deg env; de_types := de_types env; de_assigned := v :: de_assigned env; de_ctl := de_ctl env |}.
+Definition denv_set_ctl (env : denv) (m : mctl) : denv :=
+  {| de_deg := de_deg env; de_types := de_types env; de_assigned := de_assigned env; de_ctl := m |}.
+
+(* the claim on a phi given the infimum of its arguments: the same argument is taken for
+   every input only if the deciding condition is constant *)
+Definition phi_adjust (m : mctl) (o : option drange) : option drange :=
+  match m, o with
+  | MConst, Some rg => Some rg
+  | MNonConst, Some rg => Some (fst rg, DNonQuad)
+  | _, _ => None
+  end.
 Definition denv_is_assigned (env : denv) (v : vname) : bool := existsb (vname_eqb v) (de_assigned env).
 Definition denv_is_local (env : denv) (v : vname) : bool :=
   match assoc_get (de_types env) v with Some TLocal => true | _ => false end.
@@ -502,7 +516,7 @@ Fixpoint pd_expr (env : denv) (e : expr) {struct e} : bool * expr :=
     | None => (b, EUpdate v acc' rhe' k)
     end
   | EPhi args k =>
-    match iter_opt (map (denv_degree env) args) with
+    match phi_adjust (de_ctl env) (iter_opt (map (denv_degree env) args)) with
     | Some rg => sc_set_deg false (EPhi args k) rg
     | None => (false, e)
     end
@@ -580,21 +594,57 @@ Fixpoint pd_stmts (env : denv) (res : bool) (ss : list stmt) : bool * list stmt 
          let '(b', tl', env'') := pd_stmts env' b tl in (b', s' :: tl', env'')
   end.
 
-Fixpoint pd_blocks (env : denv) (res : bool) (bs : list block) : bool * list block * denv :=
+(* Cfg::merge_control: which condition decides along which edge block b is entered -
+   a loop header (a predecessor that does not come before it) by its own condition,
+   any other join by the condition that ends its immediate dominator *)
+Inductive decider := DecNone | DecCond (cond : expr) | DecOpaque.
+
+Definition last_cond (b : block) : decider :=
+  match last (b_stmts b) (SLog {| m_start := 0%N; m_end := 0%N; m_file := None |} []) with
+  | SIf _ c _ _ => DecCond c
+  | _ => DecOpaque
+  end.
+
+Definition deciding (all : list block) (idom : list (option N)) (b : block) : decider :=
+  if (length (b_preds b) <? 2)%nat then DecNone
+  else if existsb (fun q => N.leb (b_index b) q) (b_preds b) then last_cond b
+  else match nth_error idom (N.to_nat (b_index b)) with
+       | Some (Some d) => match nth_error all (N.to_nat d) with Some bd => last_cond bd | None => DecOpaque end
+       | _ => DecOpaque
+       end.
+
+Definition ctl_of (d : decider) : mctl :=
+  match d with
+  | DecNone => MConst
+  | DecCond c => match expr_deg c with
+                 | Some rg => if range_is_constant rg then MConst else MNonConst
+                 | None => MUnknown
+                 end
+  | DecOpaque => MUnknown
+  end.
+
+Definition block_ctl (all : list block) (idom : list (option N)) (b : block) : mctl := ctl_of (deciding all idom b).
+
+(* one pass over the blocks; [pre] are the blocks already visited in this pass (in order):
+   the deciding condition is read from the current state of the whole graph *)
+Fixpoint pd_blocks (idom : list (option N)) (env : denv) (res : bool) (pre : list block) (bs : list block)
+  : bool * list block * denv :=
   match bs with
   | [] => (res, [], env)
   | b :: tl =>
     if res then (true, b :: tl, env)
-    else let '(r1, ss', env') := pd_stmts env false (b_stmts b) in
-         let '(r2, tl', env'') := pd_blocks env' r1 tl in (r2, set_stmts b ss' :: tl', env'')
+    else let env0 := denv_set_ctl env (block_ctl (pre ++ b :: tl) idom b) in
+         let '(r1, ss', env') := pd_stmts env0 false (b_stmts b) in
+         let '(r2, tl', env'') := pd_blocks idom env' r1 (pre ++ [set_stmts b ss']) tl in
+         (r2, set_stmts b ss' :: tl', env'')
   end.
 
-Fixpoint degrees_passes (k : nat) (env : denv) (bs : list block) : list block * denv :=
+Fixpoint degrees_passes (k : nat) (idom : list (option N)) (env : denv) (bs : list block) : list block * denv :=
   match k with
   | O => (bs, env)
   | S k' =>
-    let '(rerun, bs', env') := pd_blocks env false bs in
-    if rerun then degrees_passes k' env' bs' else (bs', env')
+    let '(rerun, bs', env') := pd_blocks idom env false [] bs in
+    if rerun then degrees_passes k' idom env' bs' else (bs', env')
   end.
 
 (* initial degree environment: parameters *)
@@ -606,8 +656,8 @@ Definition denv_init (kind : defkind) (params : list vname) : denv :=
             params denv0.
 
 (* Cfg::propagate_values then Cfg::propagate_degrees, with the two budgets *)
-Definition propagate (kv kd : nat) (p : Z) (c : cfg) : outcome cfg :=
+Definition propagate (kv kd : nat) (p : Z) (idom : list (option N)) (c : cfg) : outcome cfg :=
   r <- values_passes kv p [] (c_blocks c) ;;
   let '(bs1, _) := r in
-  let '(bs2, _) := degrees_passes kd (denv_init (c_kind c) (c_params c)) bs1 in
+  let '(bs2, _) := degrees_passes kd idom (denv_init (c_kind c) (c_params c)) bs1 in
   Ok (set_blocks c bs2).
